@@ -529,7 +529,7 @@ func realTimer(kind string) bool {
 }
 
 // runH1 plays steps[:pos], injects, waits, runs the epilogue and reports what it saw.
-func runH1(sp h1spec, kind string, pos int, racy bool) (o obs) {
+func runH1(sp h1spec, kind string, pos int, racy bool, quick bool) (o obs) {
 	steps := h1steps(sp)
 	o = obs{Stack: "h1", Spec: sp, Kind: kind, Pos: pos, Steps: len(steps), Racy: racy, Call: "pending", Body: "none"}
 	if pos > 0 {
@@ -635,7 +635,11 @@ func runH1(sp h1spec, kind string, pos int, racy bool) (o obs) {
 	method := "GET"
 	if sp.Upload {
 		method = "POST"
-		r.body = newTrackedBody(24 << 20)
+		size := int64(24 << 20)
+		if quick {
+			size = 6 << 20 // still more than the loopback socket buffers take
+		}
+		r.body = newTrackedBody(size)
 		rq.SetBody(io.ReadCloser(r.body))
 		o.ReqBody = true
 	}
